@@ -115,7 +115,11 @@ def defer_measurements(
                 )
                 for indexes, m in gate.confusion_map.items()
             ]
-            xs = [ops.X(targets[i]) for i, b in enumerate(gate.full_invert_mask()) if b]
+            xs = [
+                _inversion_gate(targets[i].dimension).on(targets[i])
+                for i, b in enumerate(gate.full_invert_mask())
+                if b
+            ]
             return cxs + confusions + xs
         elif protocols.is_measurement(op):
             return [defer(op, None) for op in protocols.decompose_once(op)]
@@ -315,6 +319,14 @@ def drop_terminal_measurements(
     return transformer_primitives.map_operations(
         circuit, flip_inversion, deep=context.deep if context else True, tags_to_ignore=ignored
     ).unfreeze()
+
+
+def _inversion_gate(dimension: int) -> cirq.Gate:
+    """The gate that an inverted measurement result stands for: X, or for a qudit the swap of 0 and 1."""
+    if dimension == 2:
+        return ops.X
+    # Per SimulationState.measure(), swap 0,1 but leave other dims alone
+    return ops.MatrixGate(np.eye(dimension)[[1, 0, *range(2, dimension)]], qid_shape=(dimension,))
 
 
 class _ConfusionChannel(ops.Gate):
